@@ -71,6 +71,19 @@ pub(crate) fn b_wrapped(b: &Buffer, i: usize) -> bool {
 pub(crate) fn b_line_len(b: &Buffer, i: usize) -> usize {
     b.lines[i].cells.len()
 }
+pub(crate) fn b_clone(b: &Buffer) -> Buffer {
+    let mut lines: Vec<Line> = Vec::with_capacity(b.lines.len() + 4);
+    for l in b.lines.iter() {
+        lines.push(l.clone());
+    }
+    Buffer {
+        lines,
+        cols: b.cols,
+        rows: b.rows,
+        scrollback_limit: b.scrollback_limit.as_ref().map(|l| ScrollbackLimit { soft: l.soft, hard: l.hard }),
+        trim_needed: b.trim_needed,
+    }
+}
 pub(crate) fn b_forget(b: Buffer) {
     std::mem::forget(b);
 }
